@@ -15,7 +15,8 @@ EXPLANATION = (
     "order facts on differences) of the step for each irrigation method 0..5 proves the applied irrigation depth that "
     "reaches the IrrDay column is >= 0 on every path. C04.c: every writer of the micro-advection-adjusted canopy cover "
     "(the factor (1 - CC*) of potential soil evaporation) leaves it <= 1 on every exit path (abstract interpretation "
-    "with order facts). NOT decided: Es <= EsPot, Tr <= TrPot, non-negativity of DeepPerc / CR / GwIn / Runoff / Es "
+    "with order facts). C04.d: the submergence factor 1 - day_submerged/LagAer that scales surface transpiration is computed "
+    "only where the order facts give day_submerged <= LagAer (strict guard before the integer increment), so it is >= 0. NOT decided: Es <= EsPot, Tr <= TrPot, non-negativity of DeepPerc / CR / GwIn / Runoff / Es "
     "(numeric, depend on run-time water contents).")
 
 
@@ -119,5 +120,45 @@ def run(chk, prog, tier):
                               f"{field} (factor (1 - CC*) of potential soil evaporation / CC* of potential transpiration) "
                               f"is not bounded by 1 on every path: {'; '.join(sorted(set(detail)))}",
                               loc=fi.loc())
+    rule_d(chk, prog)
     chk.assume("A-1")
     chk.exhaustive = True
+
+
+def rule_d(chk, prog):
+    """the submergence factor 1 - day_submerged / LagAer scales surface transpiration: it is evaluated only where
+    day_submerged <= LagAer (order facts; the day counter is an integer: x < t and x := x + 1 give x <= t)"""
+    import re
+    tr = prog.find_func("transpiration")
+    chk.fn(tr.key)
+    where = f"{tr.module}:{tr.qualname}"
+    it = Interp(prog, tr, domains=DOMAINS, local_domains=local_literal_domains(tr), part_key="facts", maxp=32, integer_counters=True).run()
+    found = 0
+    for n in it.cfg.live_nodes():
+        a = n.ast
+        if not (isinstance(a, ast.Assign) and isinstance(a.value, ast.BinOp) and isinstance(a.value.op, ast.Sub)
+                and isinstance(a.value.left, ast.Constant) and a.value.left.value == 1
+                and isinstance(a.value.right, ast.BinOp) and isinstance(a.value.right.op, ast.Div)):
+            continue
+        num, den = a.value.right.left, a.value.right.right
+        if not (norm(num).endswith("day_submerged") and norm(den).endswith("LagAer")):
+            continue
+        found += 1
+        ok = True
+        wit = ""
+        for p in it.node_facts.get(n.id, []):
+            tn, td = it.term(num, p), it.term(den, p)
+            rel = p.pa.get(tn, td) if tn and td else frozenset("<=>")
+            if not rel <= frozenset("<="):
+                ok = False
+                wit = p.pa.describe()[:200]
+        construct = norm(a)
+        if ok:
+            chk.ok("C04.d", where, construct, "evaluated only where day_submerged <= LagAer: the factor is >= 0")
+        else:
+            chk.violation("C04.d", where, construct,
+                          "the submergence factor can be negative: nothing establishes day_submerged <= LagAer where it is computed "
+                          "(the counter is incremented after a non-strict test), so surface transpiration - and the reported Tr - "
+                          "can become negative on ponded fields", loc=tr.loc(a), witness=wit)
+    chk.floor("C04.d", found, 1, "submergence-factor computations")
+    chk.assume("A-16")
